@@ -18,6 +18,10 @@ theorem slice_take (b : Bytes) (n o w : Nat) (h : o + w ≤ n) : slice (b.take n
 theorem beAt_take (b : Bytes) (n o w : Nat) (h : o + w ≤ n) : beAt (b.take n) o w = beAt b o w := by
   unfold beAt; rw [slice_take b n o w h]
 
+theorem beAt_drop (b : Bytes) (k o w : Nat) : beAt (b.drop k) o w = beAt b (k + o) w := by
+  unfold beAt slice
+  rw [List.drop_drop]
+
 theorem byteAt_take (b : Bytes) (n i : Nat) (h : i < n) : byteAt (b.take n) i = byteAt b i := by
   simp [byteAt, List.getD_eq_getElem?_getD, List.getElem?_take, h]
 
@@ -31,7 +35,14 @@ theorem tRepr_tecmpPacket (b : Bytes) (i ty : Nat) (o : Bytes) :
 /-! ### the three single-packet kinds -/
 
 theorem tecmpCm_shape (b p : Bytes) :
-    tecmpCm b p = if p.length < 18 then [] else [tecmpPacket b (beAt b 12 4) ⟨769, cmObjOf p⟩] := rfl
+    tecmpCm b p = if p.length < 18 ∨ p.length - 12 < beAt p 4 2 then [] else [tecmpPacket b (beAt b 12 4) ⟨769, cmObjOf p⟩] := by
+  unfold tecmpCm
+  by_cases h18 : p.length < 18
+  · simp only [h18, if_true, true_or]
+  · by_cases hv : p.length - 12 < beAt p 4 2
+    · simp only [h18, hv, if_false, if_true, or_true]
+    · simp only [h18, hv, if_false, or_self]
+      rfl
 
 theorem tecmpLin_shape (b p : Bytes) :
     tecmpLin b p = if p.length < 2 ∨ p.length - 2 < byteAt p 1 then [] else [tecmpPacket b (beAt b 12 4) ⟨259, linObjOf p⟩] := by
@@ -82,20 +93,21 @@ def convF (b : Bytes) (x : Option TECMP_Payload_St) : TPacket_St :=
     else if beAt b 6 2 = 4 then tpkt b (beAt b 12 4) (some (259, linObjOf y.f_payloadData))
     else tpkt b (beAt b 12 4) (some (canPl y.f_payloadData))
 
-theorem busEntries_shape (b p : Bytes) (hmt : byteAt b 5 = 2) (h12 : 12 ≤ p.length) :
-    ∀ n off, (tecmpBusEntries b p n off).map (fun q => some (tRepr q)) = (busPl p n off).map fun x => some (convF b x) := by
+theorem busEntries_shape (b p : Bytes) (v : Nat) (hmt : byteAt b 5 = 2) (h12 : 12 ≤ p.length) :
+    ∀ n off, (tecmpBusEntries b p v n off).map (fun q => some (tRepr q)) = (busPl p v n off).map fun x => some (convF b x) := by
   intro n
   induction n with
   | zero => intro off; rfl
   | succ n ih =>
     intro off
     unfold tecmpBusEntries busPl
-    by_cases ho : off + 12 ≤ p.length
-    · simp only [ho, if_true, List.map_cons, ih (off + 12)]
+    by_cases ho : off + (12 + v) ≤ p.length
+    · have ho12 : off + 12 ≤ p.length := by omega
+      simp only [ho, if_true, List.map_cons, ih (off + (12 + v))]
       congr 2
-      have e0 := busObj_beAt p off 0 h12 ho (by omega)
-      have e4 := busObj_beAt p off 4 h12 ho (by omega)
-      have e8 := busObj_beAt p off 8 h12 ho (by omega)
+      have e0 := busObj_beAt p off 0 h12 ho12 (by omega)
+      have e4 := busObj_beAt p off 4 h12 ho12 (by omega)
+      have e8 := busObj_beAt p off 8 h12 ho12 (by omega)
       simp only [Nat.add_zero, Nat.reduceAdd] at e0 e4 e8
       simp only [convF, busObj, hmt, Nat.reduceEqDiff, if_false, if_true, ifObjOf, e0, e4, e8]
       rfl
@@ -107,6 +119,6 @@ theorem tecmpBus_shape (b p : Bytes) (hmt : byteAt b 5 = 2) :
   by_cases h : p.length < 12
   · simp only [h, if_true, List.map_nil]
   · simp only [h, if_false]
-    exact busEntries_shape b p hmt (by omega) _ _
+    exact busEntries_shape b p _ hmt (by omega) _ _
 
 end AsamCmp.SrcTec
